@@ -46,8 +46,10 @@ def _gen(ctx, svh, focus, tag):
 def _runs(svh, path, n, par=4):
     outs = []
     for i in range(0, n, par):
-        ps = [subprocess.Popen([svh, "-replay", "run=" + path, "determinism"], stdout=subprocess.PIPE, stderr=subprocess.DEVNULL)
-              for _ in range(min(par, n - i))]
+        # the replicas differ in the ProcessProposal calls they see before each FinalizeBlock (pp=0 none: block replay,
+        # 1 the decided block, 2 a proposal of another round first): the result must not depend on them
+        ps = [subprocess.Popen([svh, "-replay", "run=%s,pp=%d" % (path, (i + j) % 3), "determinism"], stdout=subprocess.PIPE, stderr=subprocess.DEVNULL)
+              for j in range(min(par, n - i))]
         for p in ps:
             outs.append(p.communicate()[0].decode().splitlines())
     return outs
